@@ -394,6 +394,10 @@ def c04(ctx):
             dict(configs="CfgC04multi", conns=2 if q else 3, f1=S("tls", "notls"), tlsr=S("proceed", "failure"),
                  certs=S("valid", "untrusted"), f2=S("mech"), authr=S("success"),
                  f3=S("b", "bm"), resr=S("resumed", "failed"), bindr=S("result"), sessr=S("result"), enr=S("enabled"))]
+    # TLS session resumption must not short-cut the domain check: a server with session tickets, a certificate valid for
+    # the configured ServerName but not for the domain, several connections on one client
+    gens.append(dict(configs="CfgC04sn", conns=2 if q else 3, f1=S("tls"), tlsr=S("proceed"), certs=S("wronghost", "valid"), f2=S("mech"),
+                     authr=S("success"), f3=S("b"), resr=S("resumed"), bindr=S("result"), sessr=S("result"), enr=S("enabled")))
     # WebSocket: ws: must not carry credentials unless insecure mode is on; wss: only after the dial accepted the certificate
     gens.append(dict(configs="CfgC04ws", conns=1 if q else 2, f1=S("tls", "tlsreq", "notls"), tlsr=S("proceed"), certs=S("valid", "wronghost", "untrusted", "expired"),
                      f2=S("mech"), authr=S("success", "failure"), f3=S("b"), resr=S("resumed"), bindr=S("result"), sessr=S("result"), enr=S("enabled")))
@@ -405,12 +409,12 @@ def c04(ctx):
 def c11(ctx):
     q = ctx.tier == "quick"
     base = dict(f1=S("notls"), tlsr=S("proceed"), certs=S("valid"), f2=S("mech"), authr=S("success"), bindr=S("result"), sessr=S("result"))
-    gens = [dict(configs="CfgC11", conns=3, f3=S("bm", "b"), resr=S("resumed", "resumedother", "failed", "faileditem", "failedcond", "other", "unknownel", "close"),
+    gens = [dict(configs="CfgC11", conns=3, f3=S("bm", "b"), resr=S("resumed", "resumedother", "failed", "faileditem", "failedcond", "other", "unknownel", "close", "reset"),
                  enr=S("enabled", "enablednoresume"), **base)]
     if not q:
         gens.append(dict(configs="CfgC11b", conns=4, f3=S("bm", "b"), resr=S("resumed", "resumedother", "failed", "other"),
                          enr=S("enabled", "enablednoresume", "failed"), **base))
-    gens.append(dict(configs="CfgC11ws", conns=2 if q else 3, f3=S("bm", "b"), resr=S("resumed", "resumedother", "failed", "faileditem", "close"),
+    gens.append(dict(configs="CfgC11ws", conns=3, f3=S("bm", "b"), resr=S("resumed", "resumedother", "failed", "faileditem", "close"),
                      enr=S("enabled", "enablednoresume"), **base))
     ctx.notes["bounds"] = "all histories of %d connections on one client (Connect and Resume as reconnect entry points), stream management advertised or not on each, <enabled> with/without resumption, every reply to <resume/> {resumed same id, other id, failed, failed+item-not-found, failed with each of 29 conditions and a text, unexpected, closed}, 0..2 stanzas received per session" % (3 if q else 4)
     neg_check(ctx, gens)
@@ -433,7 +437,7 @@ def c14(ctx):
 def comp_cfg(conns, maxstz, stz, emit=True):
     return """SPECIFICATION Spec
 CONSTANTS
-  IdClasses = {"plain", "escaped", "nonascii", "long", "absent"}
+  IdClasses = {"plain", "escaped", "nonascii", "long", "ctrl", "absent"}
   Replies = {"handshake", "err-conflict", "err-host-unknown", "err-not-authorized", "other", "malformed", "close", "streamclose"}
   MaxConns = %d
   MaxStz = %d
@@ -461,7 +465,7 @@ def c16(ctx):
     def full():
         comp_run(ctx, [dict(conns=2, maxstz=1, stz=S("msg")), dict(conns=1 if q else 3, maxstz=2, stz=S("msg", "iqres"))])
         ctx.exhaustive = True
-        ctx.notes["bounds"] = "stream id classes {plain, with escaped XML metacharacters, non-ASCII, 320 chars, absent} x replies {handshake, 3 stream errors, unexpected element, malformed, closed, stream close} x 2 (thorough 3) connections on one Component x 4 secrets"
+        ctx.notes["bounds"] = "stream id classes {plain, with escaped XML metacharacters, non-ASCII, 320 chars, TAB/LF/CR as character references and odd spaces, absent} x replies {handshake, 3 stream errors, unexpected element, malformed, closed, stream close} x 2 (thorough 3) connections on one Component x 4 secrets"
     replay_or(ctx, "comp", "TraceComponent", "Trace_Component.cfg", full)
     ctx.assumptions += ["the reference digest is crypto/sha1 + hex of (unescaped stream id + secret) computed in the harness (DESIGN.md section 9)"]
 
